@@ -301,6 +301,8 @@ func mix64(x uint64) uint64 {
 func newMapOf[K comparable, V any](kc keyCodec[K], vc valCodec[V], hasher string, presize int, usePresized bool) MapAPI {
 	var m cache.MapOf[K, V]
 	switch {
+	case hasher == "growonly":
+		m = bridge.NewMapOfGrowOnly[K, V](presize)
 	case hasher != "" && hasher != "default":
 		m = bridge.NewMapOfWithHasher[K, V](hasherFor(hasher, kc), presize)
 	case usePresized:
@@ -319,6 +321,9 @@ var MapKinds = []string{"map", "mapof_string_any", "mapof_int_int64", "mapof_str
 func NewMapKind(kind, hasher string, presize int, usePresized bool) MapAPI {
 	switch kind {
 	case "map":
+		if hasher == "growonly" {
+			return mapAd{bridge.NewMapGrowOnly(presize)}
+		}
 		if usePresized {
 			return mapAd{cache.NewMapPresized(presize)}
 		}
